@@ -124,7 +124,7 @@ CHECKS = {
     },
     "C15": {
         "packages": ["vchecks"],
-        "steps": [vc("c15", "lists", 200000, 8000000, produces=["lists", "routing"]), fuzz("meta_list", "C15", 10000000), fz("C15", "c15", 1000000)],
+        "steps": [vc("c15", "lists", 200000, 8000000, produces=["lists", "routing"]), fuzz("meta_list", "C15", 2000000), fz("C15", "c15", 1000000)],
         "assumptions": L1_ASSUME + ["the documented default chain (from_meta -> from_word/from_list/from_expr -> from_value -> from_bool/from_string/from_char) is read off the FromMeta trait docs"],
     },
     "C12": {
